@@ -574,6 +574,16 @@ theorem heap_layers_isolated_symm (f : Nat) (h h1 h2 : Heap) (s snaps : HOverlay
     exact ⟨hl, fun g x n hn => absH_mono hl g x n hn⟩
   exact ⟨key, fun ops hq ha => key (applyOps_writes hq ha)⟩
 
+/-- THE SNAPSHOTS OF ONE CALL ARE DISJOINT FROM EACH OTHER, too: the cells of snapshot `i` all lie
+    below the cells of snapshot `j > i` (consecutive Clone regions) — a write into one layer's
+    snapshot cannot show in another layer's snapshot. -/
+theorem heap_layers_pairwise_disjoint (f : Nat) (h h' : Heap) (s snaps : HOverlay)
+    (he : layersF f h s = some (h', snaps)) (i j : Nat) (p q : String × Addr) (hij : i < j)
+    (hp : snaps[i]? = some p) (hq : snaps[j]? = some q) :
+    ∀ b, Reach h' p.2 b → ¬ Reach h' q.2 b := by
+  intro b hb hb'
+  exact Nat.lt_irrefl b (layersF_ordered f s h h' snaps he i j p q hij hp hq b b hb hb')
+
 /-- WHAT PUT STORES.  After `Put(l, path, v)` every cell a layer reaches is
       (1) a cell some layer reached before, or
       (2) a cell allocated by this call (the new layer, the containers made along the path), or
